@@ -474,6 +474,7 @@ class Simulation:
         self.dispatcher = None
         self.chan_by_cid = {}
         k.on_idle = None
+        k.on_finish = None
         k.on_step = None
         k.events = []
         for c in self.clients:
